@@ -104,7 +104,7 @@ def run(ctx):
         lang = cid.rsplit("-", 1)[0]
         ctx.violation("judge", "C05 %s: query %r — %s" % (kind, qtext[:160], kv["judge"][:200]),
                       {"case": cid, "spec": spec, "query": qtext, "result": kv},
-                      fingerprint={"kind": kind, "optional": kv.get("optional", "-"), "lang": lang})
+                      fingerprint={"kind": kind, "optional": kv.get("optional", "-"), "extras": kv.get("extras", "-"), "lang": lang})
     ctx.oblige("corr:capQItem=ts_query_capture_quantifier_for_id", capq_bad == 0, "%d of %d differ" % (capq_bad, capq_cmp))
     ctx.coverage.update({
         "evaluations": evals, "distinct_nontrivial": len(distinct),
